@@ -342,8 +342,16 @@ class FakeSnowflakeCursor:
                     self._conn.database = None
                     self._conn.schema = None
 
-                elif cmd == "DROP SCHEMA" and ident == self._conn.schema:
+                elif (
+                    cmd == "DROP SCHEMA"
+                    and ident == self._conn.schema
+                    and (schema_ref := transformed.find(exp.Table))
+                    and (schema_ref.catalog or self._conn.database) == self._conn.database
+                ):
+                    # the session no longer has a current schema
                     self._conn.schema = None
+                    self._conn.schema_set = False
+                    self._duck_conn.execute(f"SET schema = '{self._conn.database}.main'")
 
         if table_comment := cast(tuple[exp.Table, str], transformed.args.get("table_comment")):
             # record table comment
